@@ -53,6 +53,10 @@ def intsOfNat : Nat → Nat → List Int
   | 0, _ => []
   | count + 1, n => (((n % 65536 : Nat) : Int) - 32768) :: intsOfNat count (n / 65536)
 
+/-- Read entry `i` (0-based) of a table stored as consecutive chunks of 64 rows. -/
+def chunkGet {α : Type} (chunks : List (List α)) (i : Nat) : Option α :=
+  (chunks[i / 64]?).bind fun c => c[i % 64]?
+
 def m3OfList (l : List Int) : M3 :=
   match l with
   | [a, b, c, d, e, f, g, h, i] => ⟨a, b, c, d, e, f, g, h, i⟩
@@ -81,24 +85,47 @@ def eqvMod (c : Centering) (p q : HOp) : Bool :=
 
 def memMod (c : Centering) (ops : List HOp) (x : HOp) : Bool := ops.any fun s => eqvMod c x s
 
-/-- One pass over `ops` in list order.  `reach` holds operations already known to be products of
-generators (modulo the lattice).  Each operation must be in `reach` when its turn comes
-(generated-ness) and its products with all generators must be in `ops` (right closure). -/
-def closedPass (c : Centering) (gens ops : List HOp) : List HOp → List HOp → Bool
-  | [], _ => true
-  | o :: rest, reach =>
-    memMod c reach o &&
-      (let prods := gens.map fun g => o.mul g
-       prods.all (memMod c ops) && closedPass c gens ops rest (prods ++ reach))
-
 /-- Every rotation of the list maps the centring lattice into itself. -/
 def latInvariant (c : Centering) (ops : List HOp) : Bool :=
   ops.all fun o => c.latticePoints.all fun l => latMem c (o.rot.apply l)
 
-/-- Certificate that `ops` (coset representatives) is closed under composition modulo the
-centring lattice: see `Moyo.Tables.closed_of_closedOK`. -/
-def closedOK (c : Centering) (gens ops : List HOp) : Bool :=
-  closedPass c gens ops ops [HOp.one] && latInvariant c ops
+/-- Row `o` of the right-multiplication table: `row[k]` is the position in `ops` of the class of
+`o · gens[k]` modulo the centring lattice. -/
+def mulRowOK (c : Centering) (gens ops : List HOp) (o : HOp) (row : List Nat) : Bool :=
+  row.length == gens.length &&
+    (gens.zip row).all fun gj =>
+      match ops[gj.2]? with
+      | some s => eqvMod c (o.mul gj.1) s
+      | none => false
+
+/-- Parent certificate of position `i`: `code = i' * 8 + k` with `i' < i` and
+`ops[i'] · gens[k] ≡ ops[i]` according to the table. -/
+def parentOK (tbl : List (List Nat)) (i code : Nat) : Bool :=
+  decide (code / 8 < i) && ((tbl[code / 8]?).bind fun row => row[code % 8]?) == some i
+
+/-- Certificate that the list `ops` of coset representatives is closed under composition modulo
+the centring lattice (see `Moyo.Tables.closed_of_closedCert`): the first operation is the
+identity, `tbl` is a right-multiplication table by the generators (each entry verified by one
+product), every later operation is reached from an earlier one through the table (so every
+operation is a word in the generators), and the lattice is invariant under every rotation. -/
+def closedCert (c : Centering) (gens ops : List HOp) (tbl : List (List Nat)) (par : List Nat) : Bool :=
+  ops.head? == some HOp.one && tbl.length == ops.length && par.length == ops.length &&
+    (ops.zip tbl).all (fun x => mulRowOK c gens ops x.1 x.2) &&
+    ((List.range ops.length).zip par).all (fun x => x.1 == 0 || parentOK tbl x.1 x.2) &&
+    latInvariant c ops
+
+/-- Decode `count` digits in base `base`, least significant first. -/
+def natsOfNat (base : Nat) : Nat → Nat → List Nat
+  | 0, _ => []
+  | count + 1, n => n % base :: natsOfNat base count (n / base)
+
+/-- Split a list into `k` consecutive rows of width `m`. -/
+def rowsOf (m : Nat) : Nat → List Nat → List (List Nat)
+  | 0, _ => []
+  | k + 1, l => l.take m :: rowsOf m k (l.drop m)
+
+/-- The packed multiplication table (`n·m` digits in base 128) as `n` rows of width `m`. -/
+def tableOfNat (n m code : Nat) : List (List Nat) := rowsOf m n (natsOfNat 128 (n * m) code)
 
 /-! ### (b), (c) order and rotation-type histogram -/
 
@@ -124,13 +151,18 @@ def sumList (l : List Nat) : Nat := l.foldl (· + ·) 0
 
 /-! ### (e) arithmetic class -/
 
-/-- `P` is unimodular and `R ↦ P⁻¹ R P` maps the rotations `prim` into `rep`; both lists have
-the same length and `prim` has no repetition (so the map is a bijection onto `rep`). -/
-def arithOK (prim rep : List M3) (P : M3) : Bool :=
+def natsNodup : List Nat → Bool
+  | [] => true
+  | r :: rest => !rest.contains r && natsNodup rest
+
+/-- `P` is unimodular and `P⁻¹ · prim[i] · P = rep[perm[i]]` for every `i`, where `perm` has no
+repetition and both lists have the same length (so conjugation by `P` is a bijection of `prim`
+onto `rep`). -/
+def arithOK (prim rep : List M3) (P : M3) (perm : List Nat) : Bool :=
   let d := P.det
-  (d == 1 || d == -1) && prim.length == rep.length && rotsNodup prim &&
+  (d == 1 || d == -1) && prim.length == rep.length && perm.length == prim.length && natsNodup perm &&
     (let Pinv := M3.smul d P.adj
-     prim.all fun R => rep.contains ((Pinv.mul R).mul P))
+     (prim.zip perm).all fun x => rep[x.2]? == some ((Pinv.mul x.1).mul P))
 
 def vecsMod (p : Nat) : List Z3 :=
   (List.range p).flatMap fun (x : Nat) => (List.range p).flatMap fun (y : Nat) => (List.range p).map fun (z : Nat) =>
@@ -155,18 +187,21 @@ def invVec (types : List (Int × Int × Nat)) (rots : List M3) : List Nat :=
 /-! ### (f) conjugacy of settings -/
 
 /-- `(P, p/den)` is a proper affine map with
-`(P,p)⁻¹ (R,t) (P,p) = (P⁻¹RP, P⁻¹(Rp + t − p)) ≡ some (R₀,t₀) ∈ tgt (mod ℤ³)` for every
-`(R,t) ∈ src`; translations in twelfths, operations given in primitive bases (lattice ℤ³).
+`(P,p)⁻¹ (R,t) (P,p) = (P⁻¹RP, P⁻¹(Rp + t − p)) ≡ tgt[perm[i]] (mod ℤ³)` for the `i`-th operation
+`(R,t)` of `src`; translations in twelfths, operations given in primitive bases (lattice ℤ³);
+`perm` has no repetition and the lists have equal length, so the conjugated group is `tgt`.
 The translation condition is written without `P⁻¹`: `R p + t − p − P t₀ ∈ ℤ³`. -/
-def conjOK (src tgt : List HOp) (c : AffCert) : Bool :=
+def conjOK (src tgt : List HOp) (c : AffCert) (perm : List Nat) : Bool :=
   c.P.det == 1 && decide (0 < c.den) && c.den % 12 == 0 && src.length == tgt.length &&
-    rotsNodup (src.map (·.rot)) &&
+    perm.length == src.length && natsNodup perm &&
     (let Pinv := c.P.adj
      let s : Int := c.den / 12
-     src.all fun o =>
-       let r0 := (Pinv.mul o.rot).mul c.P
-       tgt.any fun o0 =>
-         o0.rot == r0 && o0.tr == o.tr &&
+     (src.zip perm).all fun x =>
+       match tgt[x.2]? with
+       | none => false
+       | some o0 =>
+         let o := x.1
+         o0.rot == (Pinv.mul o.rot).mul c.P && o0.tr == o.tr &&
            ((((o.rot.apply c.p).add (Z3.smul s o.trans)).sub (c.p.add (Z3.smul s (c.P.apply o0.trans)))).mod c.den
              == Z3.zero))
 
@@ -222,10 +257,6 @@ def packNats : List Nat → Nat
 the sorted operation codes, packed in base `opBase`. -/
 def setCode (ops : List HOp) : Nat := packNats (sortNat (ops.map opCode))
 
-def natsNodup : List Nat → Bool
-  | [] => true
-  | r :: rest => !rest.contains r && natsNodup rest
-
 /-! ### Named clause lists (the driver prints the failing names; a row is fine iff all hold) -/
 
 def allOK (cl : List (String × Bool)) : Bool := cl.all (·.2)
@@ -242,17 +273,22 @@ structure HallRowIn where
   /-- packed `traverse` / `primitive_traverse` certificates -/
   opsC : Nat
   primC : Nat
+  /-- packed right-multiplication table and parent codes (closure certificate) -/
+  mulC : Nat
+  parC : Nat
   /-- order and histogram of the geometric class of the row's arithmetic class -/
   geoOrder : Nat
   geoHist : List Nat
   /-- primitive rotations of the representative of the arithmetic class -/
   rep : List M3
   arithP : M3
+  arithPerm : Nat
   /-- allowed centring letters for the Bravais class of the arithmetic class -/
   allowedCentering : List String
   /-- primitive operations of the first setting of the same type, and the conjugator onto it -/
   first : List HOp
   aff : AffCert
+  affPerm : Nat
 
 def hallRowClauses (types : List (Int × Int × Nat)) (r : HallRowIn) : List (String × Bool) :=
   match HallSymbol.new r.symbol with
@@ -261,15 +297,17 @@ def hallRowClauses (types : List (Int × Int × Nat)) (r : HallRowIn) : List (St
     let ops := unpackOps r.opsC
     let prim := unpackOps r.primC
     let rots := ops.map (·.rot)
+    let n := ops.length
     [("a:traverse", decide (hs.traverse = some ops)),
      ("a:primitive", decide (primitiveMod hs = some prim)),
-     ("a:closed", closedOK hs.centering hs.generators ops),
-     ("b:order", ops.length == r.geoOrder && rotsNodup rots && ops.all (fun o => !o.tr) &&
+     ("a:closed", closedCert hs.centering hs.generators ops (tableOfNat n hs.generators.length r.mulC)
+        (natsOfNat 1024 n r.parC)),
+     ("b:order", n == r.geoOrder && natsNodup (rots.map M3.key) && ops.all (fun o => !o.tr) &&
         hs.centering.latticePoints.length == hs.centering.order),
      ("c:histogram", histogram types rots == r.geoHist),
      ("d:centering", Centering.ofString? r.centering == some hs.centering && r.allowedCentering.contains r.centering),
-     ("e:arithmetic", arithOK (prim.map (·.rot)) r.rep r.arithP),
-     ("f:setting", conjOK prim r.first r.aff)]
+     ("e:arithmetic", arithOK (prim.map (·.rot)) r.rep r.arithP (natsOfNat 128 n r.arithPerm)),
+     ("f:setting", conjOK prim r.first r.aff (natsOfNat 128 n r.affPerm))]
 
 /-- Data of one magnetic row. -/
 structure MagRowIn where
@@ -282,10 +320,13 @@ structure MagRowIn where
   ct : Nat
   opsC : Nat
   primC : Nat
+  mulC : Nat
+  parC : Nat
   /-- Standard-setting Hall entry of `number`: centring letter and primitive operations -/
   refCentering : String
   ref : List HOp
   aff : AffCert
+  affPerm : Nat
   setC : Nat
 
 def magRowClauses (r : MagRowIn) : List (String × Bool) :=
@@ -296,9 +337,11 @@ def magRowClauses (r : MagRowIn) : List (String × Bool) :=
     let prim := unpackOps r.primC
     [("traverse", decide (hs.traverse = some ops)),
      ("primitive", decide (primitiveMod hs = some prim)),
-     ("closed", closedOK hs.centering hs.generators ops),
+     ("closed", closedCert hs.centering hs.generators ops (tableOfNat ops.length hs.generators.length r.mulC)
+        (natsOfNat 1024 ops.length r.parC)),
      ("construct-type", constructType hs.centering ops == r.ct && decide (1 ≤ r.ct)),
-     ("reference", Centering.ofString? r.refCentering == some hs.centering && conjOK (refOps r.ct prim) r.ref r.aff),
+     ("reference", Centering.ofString? r.refCentering == some hs.centering && (let ref := refOps r.ct prim
+         conjOK ref r.ref r.aff (natsOfNat 128 ref.length r.affPerm))),
      ("numbering", r.uniHall == r.uni && r.uniType == r.uni && bnsPrefix r.bns == some r.number),
      ("set-code", setCode prim == r.setC)]
 
